@@ -265,7 +265,8 @@ def fsP (ss sk : Int) : Prog := (stripSuffix (fsF sk) (fsR ss sk)).getD .skip
 
 /-- the output groups claimed for a skipping call -/
 def skipOutputs : List Grp :=
-  stateGroups ++ [pos, ePos, sensPos, vel, subtreevel, eVel, sensVel, actuation, smooth, cfrc, csol, Grp.qacc, rnepost, sensAcc]
+  stateGroups ++ [pos, ePos, sensPos, vel, subtreevel, eVel, sensVel, actuation, smooth, cfrc, efc_force, csol, efc_b,
+    Grp.qacc, rnepost, sensAcc]
 
 /-- groups the skipped stages only partially rewrite -/
 def fsJ (ss sk : Int) : List Grp :=
